@@ -77,7 +77,7 @@ func (e *stackEnv) cleanup() {
 	}
 }
 
-var allTagNames = []string{"a", "b", "c"}
+var allTagNames = []string{"a", "b", "c", "Key"}
 
 func (e *stackEnv) build(n *stackNode, path string) spi.Provider {
 	switch n.kind {
@@ -347,7 +347,8 @@ func c11Run(input string) string {
 var (
 	c11Keys   = []string{"k1", "k2", "k3"}
 	c11Vals   = []string{"01", "02", "0a0b", "e"}
-	c11TNames = []string{"a", "b", "c"}
+	// "Key" is also the name of formattedstore's INTERNAL key tag: a caller's own tag of that name is a tag like any other
+	c11TNames = []string{"a", "b", "c", "a", "b", "c", "Key"}
 	c11TVals  = []string{"1", "2", ""}
 )
 
